@@ -48,7 +48,9 @@ class State(object):
 
 
 class Spec(object):
-    def __init__(self, events, foreign, priorities, stop_kinds, query_ops=True):
+    def __init__(self, events, foreign, priorities, stop_kinds, query_ops=True, readd=False):
+        self.readd = readd
+        self.priorities = list(priorities)
         self.events = events
         self.foreign = foreign
         self.adds = [("add", e, p, s) for e in events for p in priorities for s in stop_kinds]
@@ -73,12 +75,19 @@ class Spec(object):
         return (canon(st.d, _leaf), tuple(st.regs))
 
     def ops(self, st, depth):
-        return self.adds + self.disp + self.qops
+        out = self.adds + self.disp + self.qops
+        if self.readd and st is not None:
+            # the listener object of the first registration for an event is registered once more, under another priority
+            for e in self.events[:1]:
+                mine = [r for r in st.regs if r[0] == e]
+                if mine and len(mine) < 3:
+                    out = out + [("readd", e, p) for p in self.priorities if p != mine[0][1]]
+        return out
 
     # reference ------------------------------------------------------------------
     def expected_order(self, st, e):
-        regs = [r for r in st.regs if r[0] == e]
-        return sorted(regs, key=lambda r: (-r[1], r[3]))
+        regs = [(i, r) for i, r in enumerate(st.regs) if r[0] == e]
+        return [r for i, r in sorted(regs, key=lambda ir: (-ir[1][1], ir[0]))]  # priority, then registration order
 
     def apply(self, st, op):
         from clikit.api.event.event import Event
@@ -88,6 +97,11 @@ class Spec(object):
             tag = len(st.regs)
             st.d.add_listener(e, L(tag, bool(s)), p)
             st.regs.append((e, p, bool(s), tag))
+        elif op[0] == "readd":
+            _, e, p = op
+            first = [r for r in st.regs if r[0] == e][0]
+            st.d.add_listener(e, L(first[3], first[2]), p)
+            st.regs.append((e, p, first[2], first[3]))
         elif op[0] in ("dispatch", "dispatch0"):
             e = op[1]
             del LOG[:]
@@ -148,6 +162,8 @@ class Spec(object):
             vs.append(report.viol("query-has_listeners", "has_listeners() wrong", None, bool(st.regs), d.has_listeners()))
         for e in allev:
             for (ev, p, s, tag) in st.regs:
+                if sum(1 for r in st.regs if r[3] == tag) > 1:
+                    continue  # registered twice: which of its priorities is reported is not defined
                 got = d.get_listener_priority(e, L(tag, s))
                 exp = p if ev == e else None
                 if got != exp:
@@ -176,6 +192,8 @@ REDUCED = dict(events=["a"], foreign=["c"], priorities=[0, 5], stop_kinds=[0, 1]
 
 
 def _spec_for(case):
+    if case.get("alphabet") == "reduced-readd":
+        return Spec(readd=True, **dict(REDUCED, priorities=[0, 5, 3, -7, 100, 1]))
     return Spec(**(REDUCED if case.get("alphabet") == "reduced" else FULL))
 
 
@@ -194,16 +212,19 @@ def main():
         runs.append(("core", Spec(**CORE), 6, 2, True))
         runs.append(("reduced", Spec(**red), 8, 2, True))
         runs.append(("full-nodedup", Spec(**FULL), 4, 1, False))
+        runs.append(("reduced-readd", Spec(readd=True, **red), 7, 2, True))
     else:
         runs.append(("full", Spec(**FULL), 4, 2, True))
         runs.append(("core", Spec(**CORE), 5, 2, True))
         runs.append(("reduced", Spec(**red), 6, 2, True))
         runs.append(("full-nodedup", Spec(**FULL), 3, 1, False))
+        # the same listener object registered again under another priority (one callable, several registrations)
+        runs.append(("reduced-readd", Spec(readd=True, **red), 5, 2, True))
     tot_s = tot_t = 0
     for name, spec, depth, split, dedup in runs:
         r = explore.explore(spec, depth, split_depth=split, dedup=dedup)
         for v in r.violations:
-            v["case"]["alphabet"] = "reduced" if name == "reduced" else "full"
+            v["case"]["alphabet"] = name if name in ("reduced", "reduced-readd") else "full"
             if name == "reduced":
                 # replay uses the core reduced alphabet; histories with the rotated priority replay fine too
                 pass
